@@ -406,44 +406,95 @@ func c11Sources(c *Ctx) {
 		for _, ci := range CallsIn(fn, "git.ParseConfigLines") {
 			n++
 			a := ci.Common().Args
-			restricted, isConst := ConstBool(a[1])
-			// where do the lines come from?
-			fromFile := false
-			plain := false
-			for _, l := range p.LeavesNoFields(a[0], func(v ssa.Value) FlowAct {
-				if call, _, ok := CallResult(v); ok && CalleeName(call.Common()) == "(*git.Configuration).gitConfig" {
-					return Stop
-				}
-				return Descend
-			}) {
-				if call, _, ok := CallResult(l); ok && CalleeName(call.Common()) == "(*git.Configuration).gitConfig" {
-					args := variadicElems(call.Call.Args[1])
-					isFile := len(args) == 0 // argument list not visible here: assume it can name a file
-					for _, e := range args {
-						s, ok := ConstString(e)
-						if !ok || s == "-f" || s == "--file" || s == "--blob" {
-							isFile = true // a file/blob source, or an argument we cannot see
+			// contexts: the call as written, or — when flag and arguments are parameters of a private helper
+			// that is only called directly — one per call site of that helper
+			type srcCtx struct {
+				flag  ssa.Value
+				subst map[*ssa.Parameter]ssa.Value
+				at    string
+			}
+			ctxs := []srcCtx{{a[1], nil, ""}}
+			if prm, ok := Unwrap(a[1]).(*ssa.Parameter); ok {
+				if flags := p.callerArgs(prm); len(flags) > 0 {
+					ctxs = nil
+					for i, fv := range flags {
+						sub := map[*ssa.Parameter]ssa.Value{}
+						for _, q := range fn.Params {
+							if qa := p.callerArgs(q); len(qa) == len(flags) {
+								sub[q] = qa[i]
+							}
 						}
+						at := ""
+						if in, ok := fv.(ssa.Instruction); ok {
+							at = "@" + FnName(in.Parent())
+						} else if i < len(p.callSites[fn]) {
+							at = fmt.Sprintf("@caller#%d", i)
+						}
+						ctxs = append(ctxs, srcCtx{fv, sub, at})
 					}
-					if isFile {
-						fromFile = true
-					} else {
-						plain = true
-					}
-				} else {
-					fromFile = true // unknown provenance: treat as repository supplied
 				}
 			}
-			key := "ParseConfigLines@" + FnName(fn)
-			switch {
-			case !isConst:
-				c.Undecided("R3", key, p.InstrPos(ci), "the restricted flag is not a constant")
-			case fromFile && !restricted:
-				c.Bad("R3", key, p.InstrPos(ci), "a configuration read from a file or blob (repository-supplied) is parsed as unrestricted: every key in .lfsconfig would take effect")
-			case plain && !fromFile && !restricted:
-				c.OK("R3", key, p.InstrPos(ci), "git's own configuration is the only unrestricted source")
-			default:
-				c.OK("R3", key, p.InstrPos(ci), "file/blob source is marked restricted")
+			for ci2, cx := range ctxs {
+				restricted, isConst := ConstBool(cx.flag)
+				// where do the lines come from?
+				fromFile := false
+				plain := false
+				for _, l := range p.LeavesNoFields(a[0], func(v ssa.Value) FlowAct {
+					if call, _, ok := CallResult(v); ok && CalleeName(call.Common()) == "(*git.Configuration).gitConfig" {
+						return Stop
+					}
+					return Descend
+				}) {
+					if call, _, ok := CallResult(l); ok && CalleeName(call.Common()) == "(*git.Configuration).gitConfig" {
+						vecs, okv := ArgVectors(call.Call.Args[1])
+						isFile := !okv || len(vecs) == 0
+						for _, vec := range vecs {
+							var flat []argSym
+							for _, e := range vec {
+								if q, isPrm := Unwrap(e.V).(*ssa.Parameter); isPrm && e.Spread && cx.subst != nil && cx.subst[q] != nil {
+									sv, oks := ArgVectors(cx.subst[q])
+									if !oks || len(sv) != 1 {
+										isFile = true
+										continue
+									}
+									flat = append(flat, sv[0]...)
+									continue
+								}
+								flat = append(flat, e)
+							}
+							if len(flat) == 0 {
+								isFile = true // argument list not visible here: assume it can name a file
+							}
+							for _, e := range flat {
+								s, ok := ConstString(e.V)
+								if e.Spread || !ok || s == "-f" || s == "--file" || s == "--blob" {
+									isFile = true // a file/blob source, or an argument we cannot see
+								}
+							}
+						}
+						if isFile {
+							fromFile = true
+						} else {
+							plain = true
+						}
+					} else {
+						fromFile = true // unknown provenance: treat as repository supplied
+					}
+				}
+				key := "ParseConfigLines@" + FnName(fn)
+				if len(ctxs) > 1 {
+					key += fmt.Sprintf("#%d", ci2)
+				}
+				switch {
+				case !isConst:
+					c.Undecided("R3", key, p.InstrPos(ci), "the restricted flag is not a constant")
+				case fromFile && !restricted:
+					c.Bad("R3", key, p.InstrPos(ci), "a configuration read from a file or blob (repository-supplied) is parsed as unrestricted: every key in .lfsconfig would take effect")
+				case plain && !fromFile && !restricted:
+					c.OK("R3", key, p.InstrPos(ci), "git's own configuration is the only unrestricted source")
+				default:
+					c.OK("R3", key, p.InstrPos(ci), "file/blob source is marked restricted")
+				}
 			}
 		}
 		// no other writer of the OnlySafeKeys field
@@ -602,31 +653,34 @@ func c11KeyIsUnsafe(c *Ctx) {
 					}
 				}
 			}
-			c.Undecided("R6", "keyIsUnsafe:return", p.InstrPos(r), "non-constant result")
+			// a computed verdict (`found := false; for … { if e == key { found = true; break } }; return !found`):
+			// on every path that avoids the exact-match edge the result must evaluate to true (unsafe)
+			pass := PassEdges(fn, c11ExactMatch(p))
+			good, decided := true, true
+			ExploreX(fn.Blocks[0], nil, nil, nil, EdgeSet(pass), nil, func(in ssa.Instruction, st PState) bool {
+				if in != ssa.Instruction(r) {
+					return true
+				}
+				if k, ok := EvalConst(r.Results[0], st); ok {
+					if bv, isB := ConstBool(k); isB && !bv {
+						good = false
+					}
+				} else {
+					decided = false
+				}
+				return true
+			})
+			if !decided {
+				c.Undecided("R6", "keyIsUnsafe:return", p.InstrPos(r), "non-constant result")
+				continue
+			}
+			c.Check(good && nonVacuous(pass), "R6", "keyIsUnsafe:safe-only-by-exact-match", p.InstrPos(r), "a key is safe only when it equals an allow-list entry exactly", "keyIsUnsafe can report a key as safe without an exact match against safeKeys")
 			continue
 		}
 		if bv {
 			continue
 		}
-		pass := PassEdges(fn, func(cond ssa.Value) (bool, bool) {
-			op, x, y, ok := BinCmp(cond)
-			if !ok || (op != token.EQL && op != token.NEQ) {
-				return false, false
-			}
-			isKey := func(v ssa.Value) bool { _, ok := Unwrap(v).(*ssa.Parameter); return ok }
-			isElem := func(v ssa.Value) bool {
-				for _, l := range p.LeavesNoFields(v, nil) {
-					if g, ok := l.(*ssa.Global); ok && g.Name() == "safeKeys" {
-						return true
-					}
-				}
-				return false
-			}
-			if isKey(x) && isElem(y) || isKey(y) && isElem(x) {
-				return op == token.EQL, true
-			}
-			return false, false
-		})
+		pass := PassEdges(fn, c11ExactMatch(p))
 		ok2, path := Guarded(fn.Blocks[0], r, pass, nil)
 		c.Check(ok2 && nonVacuous(pass), "R6", "keyIsUnsafe:safe-only-by-exact-match", p.InstrPos(r), "a key is safe only when it equals an allow-list entry exactly", "keyIsUnsafe can report a key as safe without an exact match against safeKeys: "+path)
 	}
@@ -994,4 +1048,27 @@ func globalRegexpPatterns(p *Prog, pkg, name string) []string {
 		}
 	}
 	return out
+}
+
+// c11ExactMatch matches `elem == key` with elem ranging over safeKeys and key a parameter.
+func c11ExactMatch(p *Prog) CondMatch {
+	return func(cond ssa.Value) (bool, bool) {
+		op, x, y, ok := BinCmp(cond)
+		if !ok || (op != token.EQL && op != token.NEQ) {
+			return false, false
+		}
+		isKey := func(v ssa.Value) bool { _, ok := Unwrap(v).(*ssa.Parameter); return ok }
+		isElem := func(v ssa.Value) bool {
+			for _, l := range p.LeavesNoFields(v, nil) {
+				if g, ok := l.(*ssa.Global); ok && g.Name() == "safeKeys" {
+					return true
+				}
+			}
+			return false
+		}
+		if isKey(x) && isElem(y) || isKey(y) && isElem(x) {
+			return op == token.EQL, true
+		}
+		return false, false
+	}
 }
